@@ -73,12 +73,18 @@ class OutputSuppressionContext:
             sys.stderr = sys.__stderr__
 
     def __enter__(self) -> None:
-        # Save OS-level fds before the SUT has a chance to close them.
-        for fd in (0, 1, 2):
-            with contextlib.suppress(OSError):
-                self._saved_fds[fd] = os.dup(fd)
-        sys.stdout = self._null_file
-        sys.stderr = self._null_file
+        with self._restored_lock:
+            if self._restored:
+                # The executor already gave up on this execution (timeout) and
+                # restored the streams; a late-starting thread must not redirect
+                # them again, as nobody would restore them afterwards.
+                return
+            # Save OS-level fds before the SUT has a chance to close them.
+            for fd in (0, 1, 2):
+                with contextlib.suppress(OSError):
+                    self._saved_fds[fd] = os.dup(fd)
+            sys.stdout = self._null_file
+            sys.stderr = self._null_file
 
     def __exit__(self, exc_type, exc_val, exc_tb) -> None:
         self.restore()
